@@ -17,6 +17,7 @@ type corruption struct {
 	Level string `json:"level"` // register | api | api-committed
 	ID    RegID  `json:"id"`    // the slab the corruption is about
 	ID2   RegID  `json:"id2,omitempty"`
+	Var   int    `json:"var,omitempty"` // cross-owner: which foreign address / index the slab is moved to
 }
 
 func (c corruption) String() string { b, _ := json.Marshal(c); return string(b) }
@@ -244,6 +245,22 @@ func init() {
 			case "cross-owner":
 				// move the referenced register to another owner and patch the reference in its parent
 				newID := RegID{c.ID.Owner ^ 0x10, c.ID.Index}
+				switch c.Var {
+				case 1:
+					newID.Owner = 0 // the temporary address is a different address too
+				case 2, 3:
+					// another account, under an index the walk from the root has met before (the root's own)
+					newID.Owner = c.ID.Owner ^ 0x3
+					if c.Var == 3 {
+						newID.Owner = c.ID.Owner ^ 0x10
+					}
+					if top := w.topRootOf(c.ID); top != nil {
+						newID.Index = top.Index
+					}
+				}
+				if _, taken := l.Regs[newID]; taken {
+					return nil
+				}
 				var old, neu [16]byte
 				binary.BigEndian.PutUint64(old[:], c.ID.Owner)
 				binary.BigEndian.PutUint64(old[8:], c.ID.Index)
@@ -271,8 +288,9 @@ func init() {
 			if v := fail(st, what); v != nil {
 				return v
 			}
-			if c.Kind == "delete-ref" {
-				// reference query: deleted one is broken, the rest as the parser sees it
+			if c.Kind == "delete-ref" || c.Kind == "cross-owner" {
+				// reference query: a deleted one is broken, the rest (references into other addresses included) as
+				// the parser sees it
 				top := w.topRootOf(c.ID)
 				if top != nil {
 					refs, brokenRefs, err := st.GetAllChildReferences(top.SlabID())
@@ -281,8 +299,8 @@ func init() {
 					}
 					resolved, broken := reachableFrom(l, *top)
 					if idSetString(refs) != regSetString(resolved) || idSetString(brokenRefs) != regSetString(broken) {
-						return &Violation{Class: "health.refs-broken", Msg: fmt.Sprintf("after deleting %s, GetAllChildReferences(%s) = %s broken %s; the parser reaches %s broken %s",
-							c.ID, *top, idSetString(refs), idSetString(brokenRefs), regSetString(resolved), regSetString(broken))}
+						return &Violation{Class: "health.refs-broken", Msg: fmt.Sprintf("after corruption %s, GetAllChildReferences(%s) = %s broken %s; the parser reaches %s broken %s",
+							c, *top, idSetString(refs), idSetString(brokenRefs), regSetString(resolved), regSetString(broken))}
 					}
 					agg.Inc("health.refs-checked")
 				}
@@ -514,6 +532,7 @@ func init() {
 			}
 			if par, ok := parentOf[id]; ok {
 				out = append(out, corruption{Kind: "cross-owner", Level: "register", ID: id, ID2: par})
+				out = append(out, corruption{Kind: "cross-owner", Level: "register", ID: id, ID2: par, Var: 1 + int(id.Index%3)})
 				if rootSet[par] {
 					out = append(out, corruption{Kind: "double-ref.same-parent", Level: "api", ID: id, ID2: par})
 					out = append(out, corruption{Kind: "double-ref.same-parent", Level: "api-committed", ID: id, ID2: par})
